@@ -60,8 +60,37 @@ def unlockedName (p : PkgVal) : Str :=
      | some v => "@{>=".toList ++ v ++ "}".toList
      | none => []) ++ ">".toList
 
+/-- the type a definition node exports: the (already exported) type of the definition it is an
+    alias of, else a fresh type -/
+def defInner (s : SpecSt) (n : Node) : Term :=
+  match n.defAlias with
+  | some m =>
+    match s.terms.find? (·.1 == m) with
+    | some (_, t) => t
+    | none => .opaque
+  | none => .opaque
+
+/-- an instantiation node of package `p` (slot `slot`): it instantiates the component that
+    stands for `p` (embedded at the first instantiation of `p`, or imported), passing for every
+    argument edge the designated source and for every other import of `p` the shared implicit
+    import of that name -/
+def specInst (g : GraphVal) (cn : Str → Str) (define : Bool) (s : SpecSt) (id : Nat) (n : Node)
+    (slot : Nat) (p : PkgVal) : SpecSt :=
+  let firstUse := !s.seen.contains slot
+  let compTerm : Term :=
+    if define then .comp (if firstUse then s.seen.length else s.seen.idxOf slot)
+    else .imp (unlockedName p)
+  let explicit := n.args.map fun (a : Str × Nat) => (a.1, kindOf g a.2, s.term a.2)
+  let implicit := (unsatisfiedByArgs n p).map fun r => (r.name, r.ty.kind, Term.imp (cn r.name))
+  let iw : InstW := { comp := compTerm, args := explicit ++ implicit }
+  { terms := s.terms ++ [(id, .inst s.w.insts.length)],
+    seen := if firstUse then s.seen ++ [slot] else s.seen,
+    w := { s.w with
+           insts := s.w.insts ++ [iw],
+           comps := if define ∧ firstUse then s.w.comps ++ [p.bytesId] else s.w.comps } }
+
 /-- one non-import node, in emission order -/
-def specNode (g : GraphVal) (define : Bool) (s : SpecSt) (id : Nat) : SpecSt :=
+def specNode (g : GraphVal) (cn : Str → Str) (define : Bool) (s : SpecSt) (id : Nat) : SpecSt :=
   match g.node? id with
   | none => s
   | some n =>
@@ -70,19 +99,7 @@ def specNode (g : GraphVal) (define : Bool) (s : SpecSt) (id : Nat) : SpecSt :=
     | .instantiation slot _ =>
       match g.pkg? slot with
       | none => s
-      | some p =>
-        let firstUse := !s.seen.contains slot
-        let compTerm : Term :=
-          if define then .comp (if firstUse then s.seen.length else s.seen.idxOf slot)
-          else .imp (unlockedName p)
-        let explicit := n.args.map fun (nm, src) => (nm, kindOf g src, s.term src)
-        let implicit := (unsatisfiedByArgs n p).map fun r => (r.name, r.ty.kind, Term.imp (canon g r.name))
-        let iw : InstW := { comp := compTerm, args := explicit ++ implicit }
-        { terms := s.terms ++ [(id, .inst s.w.insts.length)],
-          seen := if firstUse then s.seen ++ [slot] else s.seen,
-          w := { s.w with
-                 insts := s.w.insts ++ [iw],
-                 comps := if define ∧ firstUse then s.w.comps ++ [p.bytesId] else s.w.comps } }
+      | some p => specInst g cn define s id n slot p
     | .alias =>
       match n.aliasSource with
       | none => s
@@ -96,18 +113,14 @@ def specNode (g : GraphVal) (define : Bool) (s : SpecSt) (id : Nat) : SpecSt :=
       match n.exportName with
       | none => s
       | some name =>
-        let inner : Term := match n.defAlias with
-          | some m => match s.terms.find? (·.1 == m) with
-            | some (_, t) => t
-            | none => .opaque
-          | none => .opaque
+        let inner : Term := defInner s n
         { s with
           terms := s.terms ++ [(id, .exported name inner)],
           w := { s.w with exports := s.w.exports ++ [(name, .type, inner)] } }
 
 /-- the designated term of every explicit import node -/
-def importTerms (g : GraphVal) : List (Nat × Term) :=
-  g.nodes.filterMap fun n => match n.kind with | .import nm => some (n.id, Term.imp (canon g nm)) | _ => none
+def importTerms (g : GraphVal) (cn : Str → Str) : List (Nat × Term) :=
+  g.nodes.filterMap fun n => match n.kind with | .import nm => some (n.id, Term.imp (cn nm)) | _ => none
 
 /-- the exports that are not the defining export of a definition -/
 def specExports (g : GraphVal) (s : SpecSt) : List (Str × Kind × Term) :=
@@ -118,13 +131,24 @@ def specExports (g : GraphVal) (s : SpecSt) : List (Str × Kind × Term) :=
       if n.isDefinition ∧ n.exportName = some name then none
       else some (name, n.ty.kind, s.term id)
 
+/-- named nodes, by kind (the name section has one map per kind) and then by node index -/
 def specNames (g : GraphVal) (s : SpecSt) : List (Kind × Term × Str) :=
-  g.nodes.filterMap fun n => n.name.map fun nm => (n.ty.kind, s.term n.id, nm)
+  [Kind.type, .func, .instance, .component, .module, .value].flatMap fun k =>
+    g.nodes.filterMap fun n =>
+      match n.name with
+      | some nm => if n.ty.kind = k then some (k, s.term n.id, nm) else none
+      | none => none
 
-/-- the wiring the graph designates, for the emission order `ord` of its non-import nodes -/
-def specWiring (g : GraphVal) (define : Bool) (ord : List Nat) : Wiring :=
-  let s := ord.foldl (specNode g define) { terms := importTerms g }
+/-- the wiring the graph designates, for the emission order `ord` of its non-import nodes and
+    the naming `cn` of shared imports (import name ↦ the name it is imported under) -/
+def specWiringWith (g : GraphVal) (cn : Str → Str) (define : Bool) (ord : List Nat) : Wiring :=
+  let s := ord.foldl (specNode g cn define) { terms := importTerms g cn }
   { s.w with exports := s.w.exports ++ specExports g s, names := specNames g s }
+
+/-- the wiring the graph designates: shared imports are named for the highest version on
+    their semver track (`canon`) -/
+def specWiring (g : GraphVal) (define : Bool) (ord : List Nat) : Wiring :=
+  specWiringWith g (canon g) define ord
 
 /-! ### comparison up to what the property does not constrain -/
 
